@@ -197,6 +197,14 @@ def stepPure (e : PEnv) (w : List String) : Option String :=
       match Keygen.extendedSeededKeygen e.H b with
       | some (t, n, s, c) => "ok " ++ showBytes (natLE 32 t ++ natLE 32 n ++ natLE 32 s ++ natLE 32 c) | none => "model-out-of-fuel")
   | ["keygen"] | ["keygen_ext"] | ["rln", "key_gen"] | ["rln", "ext_key_gen"] | ["ffi_key_gen"] | ["ffi_ext_key_gen"] => some "n/a"
+  -- the circuit relation of the specification on a witness given by values (no software range check in between)
+  | ["sat", s, lim, mid, path, idx, x, ext] =>
+    match parseHexNat s, parseHexNat lim, parseHexNat mid, parseList path, parseHexBytes idx, parseHexNat x, parseHexNat ext with
+    | some s, some lim, some mid, some path, some idx, some x, some ext =>
+      let wi : Witness := { identitySecret := s % P, userMessageLimit := lim % P, messageId := mid % P, pathElements := path.map (· % P),
+                            identityPathIndex := idx, x := x % P, externalNullifier := ext % P }
+      some (toString (decide (CircuitSat 20 wi)))
+    | _, _, _, _, _, _, _ => none
   | "witmap" :: _ => some "n/a"      -- the QAP reduction is not modelled (DESIGN §9); compared across thread counts only
   | ["oracle", _] => some "n/a"
   | _ => none
